@@ -37,6 +37,11 @@ pub enum Op {
     SendUnconnectable,
     /// two datagrams back to back to a closed port (the second send meets ECONNREFUSED)
     BurstClosedPort,
+    /// peer of flow i answers while the client's stream has no room: the datagram is dropped
+    ReplyRefused(u8),
+    /// socket error on a live flow: its peer goes away, a client datagram meets the closed port
+    /// (the error is latched on the flow's socket), the peer comes back on the same port and sends
+    PeerRestart(u8),
 }
 
 static WORKER: AtomicU32 = AtomicU32::new(0);
@@ -66,11 +71,18 @@ impl VUdpSource for ClientSource {
 
 struct ClientSink {
     log: Arc<Mutex<Vec<VUdpOut>>>,
+    /// the client's stream has no room: datagrams are dropped (and counted here)
+    refuse: Arc<std::sync::atomic::AtomicBool>,
+    refused: Arc<AtomicU32>,
 }
 
 #[async_trait]
 impl VUdpSink for ClientSink {
     async fn write(&mut self, d: VUdpOut) -> std::io::Result<bool> {
+        if self.refuse.load(Ordering::SeqCst) {
+            self.refused.fetch_add(1, Ordering::SeqCst);
+            return Ok(false);
+        }
         self.log.lock().unwrap().push(d);
         Ok(true)
     }
@@ -165,10 +177,12 @@ async fn run_history(hist: &[Op]) -> Result<HistOutcome, Violation> {
     let notify = Arc::new(tokio::sync::Notify::new());
     let sink_log = Arc::new(Mutex::new(Vec::new()));
     let metrics = Arc::new(Mutex::new([0usize; 2]));
+    let refuse = Arc::new(std::sync::atomic::AtomicBool::new(false));
+    let refused = Arc::new(AtomicU32::new(0));
     let task = {
         let ctx = world.ctx.clone();
         let src = ClientSource { q: q.clone(), n: notify.clone() };
-        let snk = ClientSink { log: sink_log.clone() };
+        let snk = ClientSink { log: sink_log.clone(), refuse: refuse.clone(), refused: refused.clone() };
         let m = metrics.clone();
         tokio::spawn(async move {
             vh::run_udp_pipe(&ctx, (Box::new(src), Box::new(snk)), Duration::from_millis(T_MS), move |out, n| {
@@ -269,6 +283,78 @@ async fn run_history(hist: &[Op]) -> Result<HistOutcome, Violation> {
                     if *a as u64 * STEP_MS > T_MS {
                         model.maybe_closed_port = None;
                     }
+                }
+            }
+            Op::ReplyRefused(i) => {
+                if !model.flows.contains_key(i) {
+                    return Ok(HistOutcome { canon: 0, extend: false });
+                }
+                let Some(to) = peers.seen_from.get(i).copied() else {
+                    return Ok(HistOutcome { canon: 0, extend: false });
+                };
+                seq += 1;
+                let before = refused.load(Ordering::SeqCst);
+                refuse.store(true, Ordering::SeqCst);
+                let _ = peers.socks[flow_peer_index(*i)].send_to(format!("d{step}-{seq}-f{i}").as_bytes(), to);
+                settle(120).await;
+                refuse.store(false, Ordering::SeqCst);
+                if refused.load(Ordering::SeqCst) != before + 1 {
+                    return Err(fail("reply-not-returned:refused-reply", format!("step {step} {op:?}: the reply was not offered to the client's stream")));
+                }
+                // not relayed, so not counted; the flow has seen traffic all the same
+                let f = model.flows.get_mut(i).unwrap();
+                f.age = 0;
+                f.refreshed_by_reply = true;
+                if let Some(p) = f.pending.as_mut() {
+                    *p = p.saturating_sub(1);
+                    if *p == 0 {
+                        model.flows.remove(i);
+                        model.stale.insert(*i);
+                    }
+                }
+            }
+            Op::PeerRestart(i) => {
+                if !model.flows.contains_key(i) {
+                    return Ok(HistOutcome { canon: 0, extend: false });
+                }
+                let Some(to) = peers.seen_from.get(i).copied() else {
+                    return Ok(HistOutcome { canon: 0, extend: false });
+                };
+                let pi = flow_peer_index(*i);
+                let paddr = peers.socks[pi].local_addr().unwrap();
+                let gauge_before = vh::metrics_snapshot(&world.ctx).outbound_udp_sockets;
+                // the peer goes away
+                let placeholder = UdpSocket::bind(SocketAddr::new(paddr.ip(), 0)).map_err(|e| Violation::new("C07:machinery", e.to_string(), json!({})))?;
+                drop(std::mem::replace(&mut peers.socks[pi], placeholder));
+                // a client datagram meets the closed port
+                seq += 1;
+                let lost = format!("l{step}-{seq}-f{i}").into_bytes();
+                push(flow_src(*i), paddr, lost.clone());
+                notify.notify_one();
+                want_up += lost.len();
+                settle(120).await;
+                // the peer is back on its port and sends
+                let back = UdpSocket::bind(paddr).map_err(|e| Violation::new("C07:machinery", format!("rebind {paddr}: {e}"), json!({})))?;
+                back.set_nonblocking(true).map_err(|e| Violation::new("C07:machinery", e.to_string(), json!({})))?;
+                seq += 1;
+                let hello = format!("b{step}-{seq}-f{i}").into_bytes();
+                let _ = back.send_to(&hello, to);
+                peers.socks[pi] = back;
+                settle(120).await;
+                // either the latched error was met by the read (the flow is closed, the datagram goes
+                // with its socket) or it was not (the flow lives on and the datagram is relayed):
+                // told apart by the gauge, both are within the statement
+                let gauge_after = vh::metrics_snapshot(&world.ctx).outbound_udp_sockets;
+                if gauge_after == gauge_before - 1 {
+                    model.flows.remove(i);
+                    model.stale.insert(*i);
+                    peers.seen_from.remove(i);
+                } else {
+                    want_down += hello.len();
+                    expect_client.push(VUdpOut { source: paddr, destination: flow_src(*i), payload: hello });
+                    let f = model.flows.get_mut(i).unwrap();
+                    f.age = 0;
+                    f.refreshed_by_reply = true;
                 }
             }
             Op::SendUnconnectable => {
@@ -378,6 +464,8 @@ fn op_name(op: Option<&Op>) -> &'static str {
         Some(Op::Tick) => "tick",
         Some(Op::SendUnconnectable) => "unconnectable",
         Some(Op::BurstClosedPort) => "burst-to-closed-port",
+        Some(Op::ReplyRefused(_)) => "refused-reply",
+        Some(Op::PeerRestart(_)) => "peer-restart",
     }
 }
 
@@ -388,7 +476,7 @@ impl HistoryModel for M {
     fn ops(&self) -> Vec<Op> {
         vec![
             Op::Send(0), Op::Send(1), Op::Send(2), Op::Send(3), Op::Reply(0), Op::Reply(3), Op::LateReply(0), Op::Foreign(0), Op::Tick,
-            Op::SendUnconnectable, Op::BurstClosedPort,
+            Op::SendUnconnectable, Op::BurstClosedPort, Op::ReplyRefused(0), Op::PeerRestart(2),
         ]
     }
     fn run(&self, hist: &[Op]) -> Result<HistOutcome, Violation> {
